@@ -24,18 +24,25 @@ int main(int argc, char **argv) {
         else { unsigned int u = (unsigned int)v; if (u >= 0x110000 || !u) u = 'a'; memcpy(buf + 4 * i, &u, 4); }
     }
     memset(buf + n * usz, 0, usz);
-    const char *font = getenv("VERIF_FONT") ? getenv("VERIF_FONT") : "tests/fonts/Padauk.ttf";
-    gr_face *face = gr_make_file_face(font, gr_face_default);
-    if (!face) { printf("cannot load %s\n", font); return 0; }
-    gr_segment *seg = gr_make_seg(NULL, face, 0, NULL, (gr_encform)enc, buf, nChars, 0);   // ASan aborts on a read past the NUL
+    // several fonts: whether U+0000 / U+FFFD are mapped differs between them (the cmap is a symbolic stub in the proof)
+    static const char *fonts[] = { "tests/fonts/Padauk.ttf", "tests/fonts/Scheherazadegr.ttf", "tests/fonts/charis_r_gr.ttf", "tests/fonts/Awami_test.ttf" };
     size_t expect = n < nChars ? n : nChars;
     int bad = 0;
-    if (seg) {
-        unsigned got = gr_seg_n_cinfo(seg);
-        if (got != expect) { bad = 1; printf("gr_seg_n_cinfo = %u, characters actually consumed = %zu (units before NUL %zu, nChars %zu)\n", got, expect, n, nChars); }
-        gr_seg_destroy(seg);
-    } else if (expect) { printf("gr_make_seg returned NULL\n"); }
-    gr_face_destroy(face);
+    for (unsigned fi = 0; fi < sizeof fonts / sizeof *fonts; ++fi) {
+        gr_face *face = gr_make_file_face(fonts[fi], gr_face_default);
+        if (!face) { printf("cannot load %s\n", fonts[fi]); continue; }
+        gr_segment *seg = gr_make_seg(NULL, face, 0, NULL, (gr_encform)enc, buf, nChars, 0);   // ASan aborts on a read past the NUL
+        if (seg) {
+            unsigned got = gr_seg_n_cinfo(seg);
+            if (got != expect) { bad = 1; printf("%s: gr_seg_n_cinfo = %u, characters actually consumed = %zu (units before NUL %zu, nChars %zu)\n", fonts[fi], got, expect, n, nChars); }
+            for (unsigned k = 0; k < got && k < expect; ++k) {
+                const gr_char_info *ci = gr_seg_cinfo(seg, k);
+                if (gr_cinfo_base(ci) != k) { bad = 1; printf("%s: gr_cinfo_base(%u) = %zu\n", fonts[fi], k, gr_cinfo_base(ci)); }
+            }
+            gr_seg_destroy(seg);
+        } else if (expect) { printf("gr_make_seg returned NULL\n"); }
+        gr_face_destroy(face);
+    }
     free(buf);
     if (bad) REPLAY_FAIL("segment does not have one char-info per character consumed");
     REPLAY_OK("gr_make_seg stopped at the NUL / nChars");
